@@ -219,8 +219,8 @@ func c02(w *core.World, r *core.Report) {
 			if !core.CalleeIs(c, "cache.Client.Read", "cache.Client.ReadCh", "tree.TreeCacheClientImpl.Read", "tree.TreeCacheClient.Read") {
 				continue
 			}
-			store, al := optsField(c, "Store")
-			if al == nil {
+			store, _ := optsField(c, "Store")
+			if store == nil {
 				continue
 			}
 			isIntended := false
@@ -528,16 +528,18 @@ func c05(w *core.World, r *core.Report) {
 			}
 			n++
 			dup := false
-			for _, a := range core.GuardAtoms(ret) {
-				if !a.True {
-					continue
-				}
-				if ex, ok := a.Cond.(*ssa.Extract); ok && ex.Index == 1 {
-					if _, isLookup := ex.Tuple.(*ssa.Lookup); isLookup {
-						dup = true
+			core.WithHost(add, func() {
+				for _, a := range core.GuardAtoms(ret) {
+					if !a.True {
+						continue
+					}
+					if ex, ok := a.Cond.(*ssa.Extract); ok && ex.Index == 1 {
+						if _, isLookup := ex.Tuple.(*ssa.Lookup); isLookup {
+							dup = true
+						}
 					}
 				}
-			}
+			})
 			r.Check(dup, "ROLLBACK-COMPLETE", core.Site(add, "failing return#%d is the duplicate-name refusal", i), w.InstrPos(ret), "AddTransactionIntent refuses an intent for another reason than a duplicate name; GetRollbackTransaction ignores that error and the old intent is missing from the rollback")
 		}
 		if n == 0 {
